@@ -142,6 +142,7 @@ type Kernel struct {
 	Race    *RaceDetector
 	cur     int // task the kernel released last (client task = call index, server task = 1000+conn id)
 	curCall *CallState
+	mockIdx int
 
 	// Server-side observations
 	ServerPanics int
